@@ -1,6 +1,7 @@
 import Girc.Drv.Proto
 import Girc.Model.Lifecycle
 import Girc.Model.Dispatch
+import Girc.Model.ServerTime
 /- Driver ops for the concurrency models (C07 lifecycle): replay an action trace on the model. -/
 namespace Girc.Drv
 open Girc
@@ -95,6 +96,11 @@ def handleConc (op : String) (args : List String) : Option String :=
     match LifeOps.runToks (Model.Life.begin [] []) toks 0 with
     | .ok s => some (LifeOps.summary s)
     | .error e => some e
+  | "stime", [v] => do
+    let s ← arg v
+    match Model.ServerTime.parse s with
+    | some c => pure s!"{c.unixSeconds} {c.nanos}"
+    | none => pure "none"
   | "disp.seq", [script] =>
     let toks := if script = "_" then [] else script.splitOn ","
     match DispOps.runSeq {} [] toks 0 with
